@@ -429,7 +429,13 @@ pub fn execute(case: &Case, seed: u64) -> Result<Run, String> {
         let _ = w.daemons[di].browse(TYPES[*ty % 2]);
     }
     for h in &case.resolve_hosts {
-        let _ = w.daemons[di].resolve_hostname(&host_name(*h).to_escaped(), None);
+        // (the API accepts only names ending in a lower-case ".local."; the host label keeps its case)
+        let name = host_name(*h).to_escaped();
+        let name = match name.strip_suffix(".Local.") {
+            Some(head) => format!("{head}.local."),
+            None => name,
+        };
+        let _ = w.daemons[di].resolve_hostname(&name, None);
     }
     w.settle();
     let mut insts: Vec<InstState> = case
